@@ -1219,8 +1219,22 @@ _RECS = f"{_NAME}.recs"
 _R = gi("openTypeNameRecords")
 
 
+_RKEYS = ("nameID", "platformID", "encodingID", "languageID")
+
+
 def _rk(a):
-    return f"({_R}[{a}]['nameID'], {_R}[{a}]['platformID'], {_R}[{a}]['encodingID'], {_R}[{a}]['languageID'])"
+    return "(" + ", ".join(f"{_R}[{a}]['{f}']" for f in _RKEYS) + ")"
+
+
+def _rk_same(a, b):
+    """clause text: records a and b have the same key (componentwise: two tuple displays cannot be compared directly)"""
+    return "(" + " and ".join(f"{_R}[{a}]['{f}'] == {_R}[{b}]['{f}']" for f in _RKEYS) + ")"
+
+
+def _rk_is(a, n):
+    """clause text: record a has the key of the built record for name ID n"""
+    v = _NAME_VALUES[n][0]
+    return f"({_R}[{a}]['nameID'] == {n} and {_R}[{a}]['platformID'] == 3 and {_R}[{a}]['encodingID'] == (10 if non_bmp({v}) else 1) and {_R}[{a}]['languageID'] == 1033)"
 
 
 _PSN = gi("postscriptFontName")
@@ -1269,12 +1283,12 @@ _NAME_ENS = {}
 for _n in _NAME_IDS:
     # a Windows / English (3, 1|10, 0x409) record per non-empty value, unless an explicit name record has the same key
     _NAME_ENS[f"built:{_n}"] = (
-        f"implies('name' in self.tables and {_present(_n)} and not any({_rk('a')} == {_bkey(_n)} for a in range(len({_R}))), "
+        f"implies('name' in self.tables and {_present(_n)} and not any({_rk_is('a', _n)} for a in range(len({_R}))), "
         f"{_bkey(_n)} in {_RECS} and {_RECS}[{_bkey(_n)}] == {_NAME_VALUES[_n][0]})"
     )
 # every explicit name record is there; of several with the same key the last one wins
 _NAME_ENS["records"] = (
-    f"implies('name' in self.tables, all(implies(not any({_rk('b')} == {_rk('a')} for b in range(a + 1, len({_R}))), "
+    f"implies('name' in self.tables, all(implies(not any({_rk_same('b', 'a')} for b in range(a + 1, len({_R}))), "
     f"{_rk('a')} in {_RECS} and {_RECS}[{_rk('a')}] == {_R}[a]['string']) for a in range(len({_R}))))"
 )
 _NAME_ENS["nothing-else"] = (
@@ -1299,11 +1313,11 @@ contract(
         "nameVal = nameRecord['string']": ["src = {**src, (nameId, platformId, platEncId, langId): i}"],
     },
     loops={
-        'for nameRecord in getAttrWithFallback(font.info, "openTypeNameRecords")': Loop(
+        "for nameRecord in getAttrWithFallback(font.info, 'openTypeNameRecords')": Loop(
             index="i",
             invariants={
                 "is-table": "self.otf.get('name') is not None and name == self.otf['name']",
-                "records": f"all(implies(not any({_rk('b')} == {_rk('a')} for b in range(a + 1, i)), {_rk('a')} in name.recs and name.recs[{_rk('a')}] == {_R}[a]['string']) for a in range(i))",
+                "records": f"all(implies(not any({_rk_same('b', 'a')} for b in range(a + 1, i)), {_rk('a')} in name.recs and name.recs[{_rk('a')}] == {_R}[a]['string']) for a in range(i))",
                 "built-kept": f"all(implies(not any({_rk('a')} == k for a in range(i)), k in name.recs and name.recs[k] == built[k]) for k in built)",
                 "nothing-else": f"all(k in built or (k in src and 0 <= src[k] and src[k] < i and {_rk('src[k]')} == k) for k in name.recs)",
             },
